@@ -92,6 +92,12 @@ def run_probe(repo, build_dir, test_filter=None):
         if not re.search(r'(?m)^test \w+ \.\.\. (ok|FAILED)', out):
             out = run([])
             res['ring_backend_tests'] = False
+        # second configuration: the P-256 and XChaChaPoly extensions compiled in (MAXDHLEN = 65, 65-byte public keys);
+        # the sweeps then also cover Noise_*_P256_* and *_XChaChaPoly_* names (no external vectors exist for those)
+        out2 = run(['--features', 'ring-resolver use-p256 use-xchacha20poly1305'] if res['ring_backend_tests'] else ['--features', 'use-p256 use-xchacha20poly1305'])
+        res['extensions_configuration'] = bool(re.search(r'(?m)^test \w+ \.\.\. (ok|FAILED)', out2))
+        if res['extensions_configuration']:
+            out = out + '\n' + re.sub(r'(?m)^test (\w+) \.\.\. ', r'test ext_\1 ... ', out2).replace('---- ', '---- ext_')
         for l in out.split('\n'):
             m = re.match(r'PROBE-FINDING property=(C\d\d) \| (.*)$', l.strip())
             if m:
